@@ -14,16 +14,35 @@ use serde_json::{json, Value};
 use std::collections::BTreeMap;
 
 /// integers with sum of squares = r, each |x| <= 6144
-fn squares(mut r: i64) -> Option<Vec<i64>> {
+fn squares(r: i64) -> Option<Vec<i64>> {
+    if r < 0 {
+        return None;
+    }
+    // some r (e.g. 4^k * m) have no representation by four squares below the cap; retry with a few
+    // small entries split off first
+    for pre in [&[][..], &[1][..], &[2][..], &[3][..], &[1, 2][..], &[5][..], &[7, 1][..]] {
+        let used: i64 = pre.iter().map(|x| x * x).sum();
+        if used > r {
+            continue;
+        }
+        if let Some(mut v) = squares_budgeted(r - used) {
+            v.extend_from_slice(pre);
+            return Some(v);
+        }
+    }
+    None
+}
+
+fn squares_budgeted(mut r: i64) -> Option<Vec<i64>> {
     let mut out = vec![];
     let big = 6144i64 * 6144;
-    while r > 3 * big {
+    while r >= big + 2 * 6144 {
         out.push(6144);
         r -= big;
     }
-    // four squares by search
-    let mut a = (r as f64).sqrt() as i64 + 1;
-    a = a.min(6144);
+    let mut budget = 200_000u32;
+    // four squares by greedy search from the top
+    let mut a = ((r as f64).sqrt() as i64 + 1).min(6144);
     while a >= 0 {
         let ra = r - a * a;
         if ra < 0 {
@@ -62,6 +81,7 @@ fn squares(mut r: i64) -> Option<Vec<i64>> {
                     }
                     return Some(out);
                 }
+                budget = budget.checked_sub(1)?;
                 c -= 1;
             }
             b -= 1;
@@ -133,6 +153,10 @@ struct Tally {
     rej_norm: u64,
     rej_enc: u64,
     pq_compared: u64,
+    ns_build: u64,
+    ns_ref: u64,
+    ns_impl: u64,
+    ns_pq: u64,
     found: BTreeMap<String, Found>,
     nviol: u64,
 }
@@ -144,6 +168,10 @@ impl Tally {
         self.rej_norm += o.rej_norm;
         self.rej_enc += o.rej_enc;
         self.pq_compared += o.pq_compared;
+        self.ns_build += o.ns_build;
+        self.ns_ref += o.ns_ref;
+        self.ns_impl += o.ns_impl;
+        self.ns_pq += o.ns_pq;
         self.nviol += o.nviol;
         for (k, v) in o.found {
             self.found.entry(k).or_insert(v);
@@ -158,6 +186,7 @@ impl Tally {
         part.outcome(format!("reject (encoding) x{}", self.rej_enc));
         part.set("violating_cases", json!(self.nviol));
         part.set("also_compared_with_pqclean_verify", json!(self.pq_compared));
+        part.set("cpu_seconds", json!({"construct": self.ns_build as f64 / 1e9, "reference": self.ns_ref as f64 / 1e9, "implementation": self.ns_impl as f64 / 1e9, "pqclean": self.ns_pq as f64 / 1e9}));
         for (_, f) in self.found {
             ctx.violation(f.key, f.what, f.case);
         }
@@ -185,7 +214,9 @@ fn judge<V: Variant>(tl: &mut Tally, t: &Triple) {
     let Some(h) = keycodec::pk_decode(&t.pk, n) else {
         machinery_error("C02: constructed public key does not decode in the reference");
     };
+    let t0 = std::time::Instant::now();
     let rv = refverify::verify(n, &t.msg, &t.sig[1..41], &t.sig[41..], &h);
+    tl.ns_ref += t0.elapsed().as_nanos() as u64;
     match &rv {
         refverify::Verdict::Accept { .. } => tl.acc += 1,
         refverify::Verdict::RejectNorm { .. } => tl.rej_norm += 1,
@@ -197,7 +228,10 @@ fn judge<V: Variant>(tl: &mut Tally, t: &Triple) {
         }
     }
     let case = || json!({"kind":"triple","variant":n,"msg":hex(&t.msg),"sig":hex(&t.sig),"pk":hex(&t.pk),"tag":t.tag});
-    match impl_verify::<V>(t) {
+    let t0 = std::time::Instant::now();
+    let iv = impl_verify::<V>(t);
+    tl.ns_impl += t0.elapsed().as_nanos() as u64;
+    match iv {
         Ok(got) => {
             if got != rv.accepted() {
                 tl.nviol += 1;
@@ -217,9 +251,11 @@ fn judge<V: Variant>(tl: &mut Tally, t: &Triple) {
     if let refverify::Verdict::Accept { .. } | refverify::Verdict::RejectNorm { .. } = rv {
         let s2 = crate::refmodel::codec::decompress(&t.sig[41..], n).unwrap();
         if s2.iter().all(|x| x.abs() <= 2047) {
+            let t0 = std::time::Instant::now();
             let pqsig = pq::rust_sig_to_pq(&t.sig);
             let pv = if n == 512 { pq::f512::verify(&pqsig, &t.msg, &t.pk) } else { pq::f1024::verify(&pqsig, &t.msg, &t.pk) };
             tl.pq_compared += 1;
+            tl.ns_pq += t0.elapsed().as_nanos() as u64;
             if pv != rv.accepted() {
                 machinery_error(&format!("C02: PQClean verify ({}) disagrees with the reference model ({:?}) on triple {}", pv, rv, t.tag));
             }
@@ -309,7 +345,10 @@ fn run_norm<V: Variant>(ctx: &mut Ctx, name: &str, space: &str, specs: Vec<NormS
         .par_iter()
         .map(|sp| {
             let mut tl = Tally::default();
-            if let Some(tr) = build_norm(n, sp, &cs) {
+            let t0 = std::time::Instant::now();
+            let b = build_norm(n, sp, &cs);
+            tl.ns_build += t0.elapsed().as_nanos() as u64;
+            if let Some(tr) = b {
                 judge::<V>(&mut tl, &tr);
             }
             tl
@@ -401,6 +440,36 @@ fn dense_triples(n: usize) -> Vec<Triple> {
     out
 }
 
+/// s2 with one coefficient outside the centred range of Z_q (|a| > q/2) and a small s1: the norm must
+/// be computed from the decoded integers, not from residues
+fn big_s2_triples(n: usize) -> Vec<Triple> {
+    let salt = vec![0x33u8; 40];
+    let msg = b"big".to_vec();
+    let mut sm = salt.clone();
+    sm.extend_from_slice(&msg);
+    let c = keccak::hash_to_point(&sm, n, None);
+    let mut out = vec![];
+    for a in [6144i64, -6144, 6145, -6145, 8192, -8192, 12159, -12159, 12160, -12160, 12288, -12288, 12289, -12289, 12290, 24578, -24578] {
+        for i in [0usize, 1, n / 2, n - 1] {
+            let mut s2 = vec![0i64; n];
+            s2[i] = a;
+            let s1 = sparse(n, &[7, 5, 3], (i + 1) % n);
+            // for multiples of q, s2 is zero modulo q: h is then arbitrary and s1 = c, handled by the else branch
+            let (h, expect) = if a.rem_euclid(Q) != 0 {
+                match solve_h(&c, &s1, &s2) {
+                    Some(h) => (h, Some(a * a + 83 <= sig_bound(n))),
+                    None => continue,
+                }
+            } else {
+                ((0..n as i64).map(|k| (k * 7 + 1) % Q).collect(), Some(false))
+            };
+            let Some(body) = body_of(n, &s2) else { continue };
+            out.push(Triple { n, msg: msg.clone(), sig: encode_sig(n, &salt, &body), pk: keycodec::pk_encode(&h), expect, tag: format!("big-s2:n={},a={};i={}", n, a, i) });
+        }
+    }
+    out
+}
+
 /// malformed / non-canonical encodings of an otherwise acceptable signature
 fn malformed_triples(n: usize) -> Vec<Triple> {
     let l = sig_len(n) - 41;
@@ -482,6 +551,10 @@ fn malformed_triples(n: usize) -> Vec<Triple> {
 }
 
 fn run_triples<V: Variant>(ctx: &mut Ctx, name: &str, space: &str, triples: Vec<Triple>) {
+    run_triples_g::<V>(ctx, name, space, triples, true)
+}
+
+fn run_triples_g<V: Variant>(ctx: &mut Ctx, name: &str, space: &str, triples: Vec<Triple>, need_both: bool) {
     let t = triples
         .par_iter()
         .map(|t| {
@@ -490,7 +563,7 @@ fn run_triples<V: Variant>(ctx: &mut Ctx, name: &str, space: &str, triples: Vec<
             tl
         })
         .reduce(Tally::default, reduce);
-    if t.cases > 50 && (t.acc == 0 || t.rej_norm + t.rej_enc == 0) {
+    if need_both && t.cases > 50 && (t.acc == 0 || t.rej_norm + t.rej_enc == 0) {
         machinery_error("C02: a triple family produced only one verdict (vacuity guard)");
     }
     let mut part = Part::new(name, space);
@@ -544,6 +617,7 @@ fn one_variant<V: Variant>(ctx: &mut Ctx, tier: Tier) {
         // at n = 512 a single entry of magnitude 6144 already exceeds the bound (6144^2 > floor(beta^2))
         run_triples::<V>(ctx, &format!("centred_edge_{}", n), "s1[0] in {6144,-6144,6143,-6143} with total norm B-1, B, B+1", edge_triples(n));
     }
+    run_triples_g::<V>(ctx, &format!("big_s2_{}", n), "s2 = a X^i with a in {+-6144, +-6145, +-8192, +-12159, +-12160, +-12288, +-12289, 12290, +-24578} (outside the centred range of Z_q), i in {0,1,n/2,n-1}, s1 small: the squared norm is over the decoded integers", big_s2_triples(n), false);
     run_triples::<V>(ctx, &format!("dense_{}", n), "dense short (s1,s2) of honest magnitude tuned to total norm B-1, B, B+1, B/2", dense_triples(n));
     run_triples::<V>(ctx, &format!("malformed_{}", n), "otherwise acceptable signature with: negative zero, a set padding bit at each of the next 24 positions and the last bit, unary run of the last / a middle coefficient extended by 1/94/95/256/512, one coefficient short/extra, unterminated last coefficient", malformed_triples(n));
     if tier.thorough() {
@@ -575,4 +649,52 @@ pub fn replay(case: &Value) -> Result<Option<String>, String> {
         judge::<V1024>(&mut tl, &t)
     }
     Ok(tl.found.into_iter().next().map(|(_, f)| f.what))
+}
+
+pub fn diag_time() {
+    let n = 512;
+    {
+        let mut cs = vec![];
+        for mi in 0..3 {
+            for si in 0..3 {
+                let mut sm = salts()[si].clone();
+                sm.extend_from_slice(MSGS[mi]);
+                cs.push(keccak::hash_to_point(&sm, n, None));
+            }
+        }
+        let specs = norm_specs(n, &[0, 1, n / 2, n - 1], false);
+        let mut times: Vec<(u128, i64, i64)> = vec![];
+        let t00 = std::time::Instant::now();
+        for sp in &specs {
+            let t0 = std::time::Instant::now();
+            let _ = build_norm(n, sp, &cs);
+            times.push((t0.elapsed().as_micros(), sp.a, sp.t));
+        }
+        println!("{} specs in {:?}", specs.len(), t00.elapsed());
+        times.sort();
+        println!("slowest: {:?}", &times[times.len() - 5..]);
+    }
+    let bound = sig_bound(n);
+    for t in [1i64, bound - 1, bound, 1 << 31, (1 << 32) + 1000] {
+        let t0 = std::time::Instant::now();
+        let sq = squares(t - 1);
+        println!("squares({}) -> {:?} entries in {:?}", t - 1, sq.map(|v| v.len()), t0.elapsed());
+    }
+    let c: Vec<i64> = (0..n as i64).collect();
+    let mut s2 = vec![0i64; n];
+    s2[3] = 5;
+    let s1 = sparse(n, &[100, 50, 25], 11);
+    let t0 = std::time::Instant::now();
+    let h = solve_h(&c, &s1, &s2);
+    println!("solve_h monomial {:?} {}", t0.elapsed(), h.is_some());
+    let t0 = std::time::Instant::now();
+    let h = solve_h(&c, &s1, &s2);
+    println!("solve_h monomial again {:?} {}", t0.elapsed(), h.is_some());
+    let t0 = std::time::Instant::now();
+    let hh = h.unwrap();
+    let e = keycodec::pk_encode(&hh);
+    println!("pk_encode {:?} {}", t0.elapsed(), e.len());
+    let t0 = std::time::Instant::now();
+    let b = body_of(n, &s2);
+    println!("body_of {:?} {}", t0.elapsed(), b.is_some());
 }
